@@ -168,5 +168,26 @@ int main(int argc, char **argv) {
             ctx.done_case();
         }
     }
+    // ---- the SECOND polygon representation: Avoid::ReferencingPolygon (cluster boundaries), whose points are (shape id, vertex number) references resolved
+    // through the router.  inPolyGen() takes a PolygonInterface, so it must give the same answer for a referencing polygon as for the plain polygon with the same
+    // points (already compared with exact arithmetic above); at(i) must be the referenced vertex.  Four unit squares, every boundary that takes one corner
+    // (any of the four vertex numbers) from each of 3 or 4 of them, every integer query point.
+    {
+        ctx.phase("ReferencingPolygon: boundaries through one corner (every vertex number) of each of 3-4 squares, inPolyGen and at() against the plain polygon with the same points");
+        static const double SX[4] = {0, 8, 8, 0}, SY[4] = {0, 0, 8, 8};
+        for (unsigned drop = 0; drop < 5; drop++) for (unsigned code = 0; code < 256; code++) {
+            if (!ctx.next()) continue;
+            Router *router = new Router(PolyLineRouting); std::vector<ShapeRef *> sh; for (int i = 0; i < 4; i++) { Rectangle r(Point(SX[i], SY[i]), Point(SX[i] + 2, SY[i] + 2)); sh.push_back(new ShapeRef(router, r, 10 + i)); }
+            router->processTransaction();   // (shapes enter the router's obstacle list at the transaction)
+            std::vector<int> use; for (int i = 0; i < 4; i++) if ((int)drop != i) use.push_back(i);
+            Polygon refs(use.size()), plain(use.size()); std::string desc = "ReferencingPolygon through";
+            for (size_t k = 0; k < use.size(); k++) { int vn = (code >> (2 * k)) & 3; const Polygon &sp = sh[use[k]]->polygon(); plain.ps[k] = sp.ps[vn]; refs.ps[k] = sp.ps[vn]; refs.ps[k].id = 10 + use[k]; refs.ps[k].vn = vn; desc += mcx::fmt(" square%d.v%d", use[k], vn); }
+            ReferencingPolygon rp(refs, router); long nq = 0; bool bad = false;
+            for (size_t k = 0; k < use.size() && !bad; k++) if (rp.at(k).x != plain.ps[k].x || rp.at(k).y != plain.ps[k].y) { ctx.violation("ReferencingPolygon::at", {}, desc, mcx::fmt("at(%zu) = (%g,%g), the referenced vertex is (%g,%g)", k, rp.at(k).x, rp.at(k).y, plain.ps[k].x, plain.ps[k].y)); bad = true; }
+            for (int x = -1; x <= 11 && !bad; x++) for (int y = -1; y <= 11; y++) { Point q(x, y); nq++; if (inPolyGen(rp, q) != inPolyGen(plain, q)) { ctx.violation("inPolyGen(ReferencingPolygon)", {}, desc, mcx::fmt("query (%d,%d): referencing %d plain %d", x, y, (int)inPolyGen(rp, q), (int)inPolyGen(plain, q))); bad = true; break; } }
+            ctx.count("evaluations", nq); ctx.count("states"); ctx.count("transitions", nq); ctx.count("nontrivial"); ctx.sample(desc, 1);
+            delete router; ctx.done_case();
+        }
+    }
     return ctx.finish();
 }
